@@ -6,6 +6,7 @@ import (
 	"go/types"
 	"os"
 	"path/filepath"
+	"sort"
 	"strings"
 
 	"golang.org/x/tools/go/packages"
@@ -31,7 +32,7 @@ func loadEngine(repo, specDir string) (*Engine, error) {
 	if nerr > 0 {
 		return nil, fmt.Errorf("%d package load errors", nerr)
 	}
-	prog, spkgs := ssautil.AllPackages(pkgs, ssa.InstantiateGenerics)
+	prog, spkgs := ssautil.AllPackages(pkgs, ssa.InstantiateGenerics|ssa.GlobalDebug)
 	prog.Build()
 	repoPkgs := map[string]bool{}
 	en := &Engine{prog: prog, cs: newContracts(), funcs: map[string]*ssa.Function{}, pkgs: map[string]*ssa.Package{}, inlineMax: 8, mapSortMemo: map[string]string{}}
@@ -86,6 +87,20 @@ func loadEngine(repo, specDir string) (*Engine, error) {
 			}
 		}
 		en.funcs[k] = fn
+	}
+	en.inst = map[string][]*ssa.Function{}
+	for fn := range allFunctions(prog) {
+		if len(fn.TypeArgs()) > 0 && fn.Blocks != nil && fn.Synthetic != "" && !strings.HasPrefix(fn.Synthetic, "instance of") {
+			continue
+		}
+		if len(fn.TypeArgs()) > 0 && fn.Blocks != nil {
+			k := funcKey(fn)
+			en.inst[k] = append(en.inst[k], fn)
+		}
+	}
+	for k := range en.inst {
+		fs := en.inst[k]
+		sort.Slice(fs, func(i, j int) bool { return fs[i].String() < fs[j].String() })
 	}
 	en.scanUniverse()
 	// ghost fields
